@@ -321,7 +321,7 @@ func checkC18(c *run.Ctx) {
 	for f := 0; f < nfiles; f++ {
 		nk := r.IntN(5)
 		var members []member
-		kidPool := []string{"alpha", "beta", "gamma", "", "alpha"}
+		kidPool := []string{"alpha", "beta", "gamma", "", "alpha", "Alpha", "BETA"} // key ids are case-sensitive
 		for i := 0; i < nk; i++ {
 			how := r.IntN(3)
 			if r.IntN(4) == 0 {
@@ -339,7 +339,7 @@ func checkC18(c *run.Ctx) {
 		must(c, err)
 		path := filepath.Join(scratch, fmt.Sprintf("set-%d.json", f))
 		must(c, os.WriteFile(path, b, 0o600))
-		requests := []string{"", "alpha", "beta", "gamma", "absent"}
+		requests := []string{"", "alpha", "beta", "gamma", "absent", "Alpha", "BETA", "Gamma", "alph"}
 		for _, req := range requests {
 			id := fmt.Sprintf("load/%d/%s", f, req)
 			var got jwk.Key
